@@ -745,7 +745,7 @@ fn histories_for(ctx: &Ctx, o: &Opts, prop: &str, quick: bool) -> Vec<History> {
     let n = |q: usize, t: usize| o.runs.unwrap_or(if quick { q } else { t });
     match prop {
         "C14" => {
-            for i in 0..n(96, 3000) {
+            for i in 0..n(240, 4000) {
                 let seed = derive(o.seed, "C14", i as u64);
                 hs.push(gen::c14_random(ctx, &mut Rng::new(seed), seed, quick));
             }
@@ -776,7 +776,7 @@ fn histories_for(ctx: &Ctx, o: &Opts, prop: &str, quick: bool) -> Vec<History> {
                 hs.push(gen::c18_random(ctx, &pool, &mut Rng::new(seed), seed));
             }
             // one handle that sees many distinct phrases between repetitions; confusable spellings
-            for i in 0..n(24, 600) {
+            for i in 0..n(40, 800) {
                 let seed = derive(o.seed, "C18-recurrence", i as u64);
                 hs.push(gen::c18_recurrence(ctx, &pool, &mut Rng::new(seed), seed, quick));
             }
@@ -791,7 +791,7 @@ fn histories_for(ctx: &Ctx, o: &Opts, prop: &str, quick: bool) -> Vec<History> {
             }
         }
         "C19" => {
-            for i in 0..n(80, 2000) {
+            for i in 0..n(320, 6000) {
                 let seed = derive(o.seed, "C19", i as u64);
                 hs.push(gen::c19_random(ctx, &pool, &mut Rng::new(seed), seed));
             }
